@@ -217,6 +217,28 @@ def run(case):
             continue
         sn = subs[kind]
         res['kinds'][str(kind)] = dump_sub(sn, point, case.get('methods', ['DM']))
+    # independent sources as the ORIGINAL netlist defines them: class of the one-port, arguments as given
+    # (phase of ac sources in units of pi), for the source-value model (coq/theory/Sources.v)
+    srcs = []
+    from lcapy import expr as _expr
+    for name, e in c.elements.items():
+        try:
+            if e.type not in ('V', 'I') or not e.is_independent_source:
+                continue
+            cl = type(e.cpt).__name__
+            vals = []
+            for k, a in enumerate(list(e.args)[:3]):
+                if a is None:
+                    vals.append(None)
+                    continue
+                x = _expr(a).sympy
+                if cl in ('Vac', 'Iac') and k == 1:
+                    x = x / sp.pi
+                vals.append(rat(x, point))
+            srcs.append({'name': name, 'cls': cl, 'type': e.type, 'args': vals, 'given': [a is not None for a in list(e.args)[:3]]})
+        except Exception as ex:
+            srcs.append({'name': name, 'error': type(ex).__name__})
+    res['sources'] = srcs
     # public API results (what a user sees)
     api = {}
     if case.get('api', True):
